@@ -171,8 +171,13 @@ Definition mismatch (sys : system) (b : block) : bool :=                       (
 Definition eff_duration (sys : system) (b : block) : Q :=
   if mismatch sys b then b_stored b else block_duration b.
 
+(* the value tested against the block raster (check_timing.py:50): the local `duration`, or the
+   stored duration in the repaired variant of the source *)
+Definition checked_duration (b : block) : Q :=
+  match ct_block_dur_term with TStored => b_stored b | _ => block_duration b end.
+
 Definition check_block (sys : system) (b : block) : list err :=
-  div_errs (b_id b) SBlock A_duration (block_duration b) (raster_of sys ct_block_raster)     (* :50 *)
+  div_errs (b_id b) SBlock A_duration (checked_duration b) (raster_of sys ct_block_raster)   (* :50 *)
   ++ (if mismatch sys b then [(b_id b, SBlock, A_duration, BLOCK_DURATION_MISMATCH)] else [])
   ++ flat_map (slot_errs sys (b_id b)) (block_slots b)
   ++ match b_rf b with
